@@ -25,7 +25,7 @@ def isRemove : Call → Bool
 
 /-- program counters only a push / push_many reaches -/
 def PushPc : Pc → Prop
-  | .csPush | .pub | .setIn | .sig => True
+  | .pmCb | .csPush | .pub | .setIn | .sig => True
   | _ => False
 
 /-- program counters only a pop / pop_many / pop_wait reaches -/
